@@ -68,6 +68,10 @@ def _v(ct, cv):
         return ' t="b"', '<v>%d</v>' % int(cv)
     if ct == 'e':
         return ' t="e"', '<v>%s</v>' % escape(cv)
+    if ct == 'inlineStr':
+        # CT_Cell allows <f> together with <is>: a cached text kept in line
+        return (' t="inlineStr"',
+                '<is><t xml:space="preserve">%s</t></is>' % escape(cv))
     raise ValueError(ct)
 
 
